@@ -30,6 +30,11 @@ ASSUMPTIONS = ["lmfit's optimiser is symmetric under a global sign flip of "
                "data, amplitudes and amplitude bounds"]
 
 MUTANTS = [
+    ("background subtracted only when it has positive pixels",
+     "AegeanTools/source_finder.py",
+     "        img -= self.global_data.bkgimg\n",
+     "        if np.any(self.global_data.bkgimg > 0):\n"
+     "            img -= self.global_data.bkgimg\n", "C13-R6"),
     ("filter uses >=", "AegeanTools/source_finder.py",
      "if (src.peak_flux > 0 and nopositive) or (",
      "if (src.peak_flux >= 0 and nopositive) or (", "C13-R1"),
@@ -72,6 +77,11 @@ MUTANTS = [
      "            source.peak_flux = abs(amp)\n", "C13-R5"),
 ]
 TWINS = [
+    ("identically zero background not subtracted",
+     "AegeanTools/source_finder.py",
+     "        img -= self.global_data.bkgimg\n",
+     "        if np.any(self.global_data.bkgimg != 0):\n"
+     "            img -= self.global_data.bkgimg\n"),
     ("filter reordered", "AegeanTools/source_finder.py",
      "if (src.peak_flux > 0 and nopositive) or (",
      "if (nopositive and src.peak_flux > 0) or ("),
@@ -263,6 +273,7 @@ def run(ctx):
     # ---------------------------------------------------------------- R4
     r4(ctx, prog)
     r5_fields(ctx, prog)
+    r6_guards(ctx, prog)
 
 
 def _stmt(pm, n):
@@ -526,6 +537,30 @@ FIELD_PARITY = {"peak_flux": "O", "int_flux": "O", "ra": "E", "dec": "E",
                 "a": "E", "b": "E", "pa": "E", "local_rms": "E",
                 "background": "O", "residual_mean": "O", "residual_std": "E",
                 "flags": "E"}
+
+
+def r6_guards(ctx, prog):
+    """the preparation of the image (background subtraction) takes the same
+    decisions for an image / background pair and for its negation"""
+    from ..core import as_update
+    from .c02 import bkg_guards
+    ctx.rule("C13-R6", "every guard of load_globals that looks at the pixel "
+             "values of the image or background takes the same value for "
+             "the data and for the negated data (interpreted over sample "
+             "backgrounds: zero, positive, negative, mixed)")
+    lg = prog.func("source_finder.SourceFinder.load_globals")
+    subs = [st for st in walk_no_nested(lg.node)
+            if isinstance(st, (ast.Assign, ast.AugAssign)) and
+            (as_update(st) or (None, None, ""))[1] is ast.Sub and
+            "bkgimg" in (as_update(st) or (None, None, ""))[2]]
+    stores = [st for st in walk_no_nested(lg.node)
+              if isinstance(st, ast.Assign)
+              and norm(st.targets[0]).endswith("global_data.img")]
+    ctx.floor("C13-R6", len(subs), 1, "background subtraction statements in "
+              "load_globals")
+    n = bkg_guards(ctx, "C13-R6", lg, subs, stores, symmetric=True)
+    ctx.ob("C13-R6", lg, "%d guard(s) on pixel data in load_globals" % n,
+           True, {}, lg.node)
 
 
 def r5_fields(ctx, prog):
